@@ -42,3 +42,8 @@ def run(ctx) -> None:
     from ..models import make_interp as _mk
     from ..streamshapes import end_to_end
     end_to_end(ctx, _mk(ctx.p), "C05", "C05.Z.found-where-the-property-says", "C05.Z.not-found-elsewhere")
+    # W: the canonical witness listing of every skeleton is found, first character to last (stream templates)
+    from ..models import make_interp as _mkw
+    from ..streamshapes import witnesses
+    if ctx.tier == "thorough" or ('cap', 'regcap'):
+        witnesses(ctx, _mkw(ctx.p), "C05.W.canonical-witness-is-found", tags=('cap', 'regcap') if ctx.tier != "thorough" or "C05" != "C07" else ())
